@@ -347,11 +347,10 @@ Section Mappers.
             (ns ++ [mkT id deps cond (KCall [name] f p (combine kw kv))]) (N ++ [name]).
   Proof.
     intros H Hsp Hlen Dc s L v Hc He.
-    rewrite (evalt_strict F s (NCall f kw) l eq_refl) in He.
-    destruct (evalt_list F s l) as [Ll [vs|u]] eqn:El; [|discriminate].
-    cbn [node_t] in He. unfold call1t in He.
+    destruct (evalt_strict_ok F s (NCall f kw) l L v eq_refl He) as (Ll & vs & Lk & El & Ek & ->).
+    rewrite node_t_call in Ek. unfold call1t in Ek.
     destruct (split_at (List.length vs - List.length kw) vs) as [pos kws] eqn:Ev.
-    destruct (F f pos (combine kw kws)) as [[|v0 [|? ?]]|] eqn:EF; inversion He; subst L v0. clear He.
+    destruct (F f pos (combine kw kws)) as [[|v0 [|? ?]]|] eqn:EF; inversion Ek; subst Lk v0. clear Ek.
     destruct (H s Ll vs Hc El) as (L1 & s1 & L2 & X1 & X2 & X3 & X4).
     assert (Hc1 : cond_t F s1 cond = ([], Ok true)).
     { rewrite <- Hc. apply cond_t_frame. intros x Hx. apply X2. intros Hn. now apply (Dc x Hn). }
